@@ -239,7 +239,7 @@ func FactsAt(b *ssa.BasicBlock) []CondFact {
 		}
 		for idx := range y.Succs {
 			if EdgeDominates(y, idx, b) {
-				facts = append(facts, expandCond(CondFact{Cond: ifi.Cond, Polarity: idx == 0, If: ifi})...)
+				facts = append(facts, ExpandCond(CondFact{Cond: ifi.Cond, Polarity: idx == 0, If: ifi})...)
 			}
 		}
 	}
@@ -256,10 +256,10 @@ func lastIf(b *ssa.BasicBlock) (*ssa.If, bool) {
 
 // expandCond unfolds negations: !x true == x false.  (&& and || are already
 // control flow in SSA.)
-func expandCond(f CondFact) []CondFact {
+func ExpandCond(f CondFact) []CondFact {
 	out := []CondFact{f}
 	if u, ok := f.Cond.(*ssa.UnOp); ok && u.Op == token.NOT {
-		out = append(out, expandCond(CondFact{Cond: u.X, Polarity: !f.Polarity, If: f.If})...)
+		out = append(out, ExpandCond(CondFact{Cond: u.X, Polarity: !f.Polarity, If: f.If})...)
 	}
 	return out
 }
